@@ -17,7 +17,7 @@ SHARDS = {"quick": 8, "thorough": 16}
 RULE = ("authentic packets from the independent V2 encoder (frame lengths 0,1,15,16,17,31,32,33,100,255 and random); faults: "
         "every single-bit flip at every bit position and every truncation length (exhaustive per packet), single-byte "
         "substitutions (8 values/position quick, all 255 for 3 packets thorough), random multi-byte corruptions, length-field "
-        "rewrites; each fault class also replayed through LAN.send with the model device sending the corrupted packet (on a V2 connection - as the reply, right behind an authentic reply, or pushed while the connection is idle before the next exchange - and inside an intact V3 envelope on an authenticated V3 connection). Oracle: "
+        "rewrites; each fault class also replayed through LAN.send with the model device sending the corrupted packet (on a V2 connection - as the reply (to every transmission, or to the first one only with the default retry budget), right behind an authentic reply, or pushed while the connection is idle before the next exchange - and inside an intact V3 envelope on an authenticated V3 connection). Oracle: "
         "_Packet.decode raises ProtocolError (returning the original frame is tolerated and counted; any other result or "
         "exception type is a violation); in half of the cases the authentic packet is decoded first, as on a live connection. Non-trivial: corrupted != authentic, >= 6 bytes, still starts with 5A5A. Distinct by (packet, fault).")
 ASSUMPTIONS = ["fault model does not re-sign (a correctly re-signed packet is a different authentic packet; containment of those is C09)"]
@@ -102,6 +102,10 @@ def check_case(case: dict):
                 dev.on_data = on_data2
             elif case.get("arrival") == "idle":
                 dev.default_action = ("raw", pkt)
+            elif case.get("arrival") == "once":
+                # only the answer to the first transmission is altered; had the client asked again it would get the authentic one
+                dev.script = [("raw", bad)]
+                dev.default_action = ("raw", pkt)
             else:
                 dev.default_action = ("raw", bad)
             net.listen("10.0.0.9", 6444, dev)
@@ -115,7 +119,11 @@ def check_case(case: dict):
                     await lan.send(_frame(20), retries=1)
                     dev.conns[-1].send_stream(bad, delay=0.01)
                     await asyncio.sleep(0.05)
-                out["frames"] = await lan.send(_frame(20), retries=1)
+                if case.get("arrival") == "once":
+                    out["frames"] = await lan.send(_frame(20))          # default retry budget
+                    out["tx"] = len(dev.transmissions)
+                else:
+                    out["frames"] = await lan.send(_frame(20), retries=1)
             except Exception as e:
                 out["exc"] = e
             lan._disconnect()
@@ -129,6 +137,8 @@ def check_case(case: dict):
         if e is not None:
             return (f"send/raises/{type(e).__name__}", f"LAN.send raised {e!r} for fault {case['fault']}")
         got = [bytes(f) for f in out["frames"]]
+        if case.get("arrival") == "once" and not v3 and len(bad) > 0:
+            return ("send/altered-reply-retried", f"the altered reply was discarded and the request sent again ({out.get('tx')} transmissions): LAN.send returned {[g.hex()[:30] for g in got]} (fault {case['fault']})")
         if case.get("arrival") in ("behind", "idle") and not v3 and len(bad) > 0:
             return ("send/altered-packet-ignored", f"an altered packet that arrived {case['arrival']} the authentic traffic was dropped silently: LAN.send returned {[g.hex()[:30] for g in got]} (fault {case['fault']})")
         if got == [frame]:
@@ -238,8 +248,8 @@ def run(ctx) -> None:
             s += 1
             if ctx.mine(s):
                 case = dict(base, fault=f, via="send3" if s % 3 == 0 else "send")
-                if s % 3 and s % 4 in (1, 2):
-                    case["arrival"] = ["behind", "idle"][s % 4 - 1]
+                if s % 3 and s % 4 in (1, 2, 3):
+                    case["arrival"] = ["behind", "idle", "once"][s % 4 - 1]
                 ctx.check(case, lambda c: _run_one(ctx, c))
     ctx.sweep("fault classes through LAN.send", s, not ctx.quick)
 
@@ -253,7 +263,7 @@ def run(ctx) -> None:
     )
     cases = st.fixed_dictionaries({"frame": hexb(gens.frames_bytes(255)), "id": gens.device_ids(64), "fault": fault, "prime": st.booleans()})
     send_cases = st.fixed_dictionaries({"frame": hexb(gens.frames_bytes(120)), "id": gens.device_ids(64), "fault": fault, "via": st.sampled_from(["send", "send3"])},
-                                       optional={"arrival": st.sampled_from(["reply", "behind", "idle"])})
+                                       optional={"arrival": st.sampled_from(["reply", "behind", "idle", "once"])})
 
     def runner(case):
         return _run_one(ctx, case)
